@@ -418,8 +418,8 @@ inductive FrontShape (r : InstrRow) (o : Operand) : Prop
       (o.kind = .immediate ∨ o.kind = .direct ∨ o.kind = .extended ∨ o.kind = .extIndirect) → r.isSpecial = false →
       o.value = .numeric n h m neg → FrontShape r o
   | indexed : o.kind = .indexed → r.isSpecial = false → IdxShape o → FrontShape r o
-  | bracket : o.kind = .extIndirect → r.isSpecial = false → o.value.isAddress = false → o.value.isNumeric = false →
-      IdxShape o → FrontShape r o
+  | bracket : o.kind = .extIndirect → r.isSpecial = false → o.value.isAddress = false → o.value.isAddrExpr = false →
+      o.value.isNumeric = false → IdxShape o → FrontShape r o
 
 theorem map_ok_iff {α β} {f : α → β} {x : R α} {y : β} : f <$> x = .ok y ↔ ∃ a, x = .ok a ∧ f a = y := by
   cases x with
@@ -644,7 +644,7 @@ theorem frontEnd_shape (hp : r.isPseudo = false) {text : Str} {o0 o : Operand}
               simp only [Except.ok.injEq] at hc; subst hc
               have hcm := (create_leftRight_noComma _ _ _ _ _ _ _ _ hcv).1
               obtain ⟨h1, h2, h3⟩ := resolve_idx_shape ht hsd (Or.inr ⟨rfl, rfl⟩) rfl hcm rfl hr
-              exact .bracket h1 hsp' (by rw [h2]; rfl) (by rw [h2]; rfl) h3
+              exact .bracket h1 hsp' (by rw [h2]; rfl) (by rw [h2]; rfl) (by rw [h2]; rfl) h3
             | numeric i hh m n =>
               simp only [Except.ok.injEq] at hc; subst hc
               obtain ⟨h1, h2⟩ := resolve_bracket_val_shape rfl rfl rfl hr
